@@ -32,7 +32,7 @@ def stepLine (st : DState) (line : String) : DState × String :=
       match aolStep st.addrs st.aol toks with
       | some (d, ans) => ({ st with aol := d }, ans)
       | none => (st, "bad-op")
-    else if tok.startsWith "vb." then
+    else if tok.startsWith "vb." || tok.startsWith "mon.c18." then
       (st, (validateStep st.addrs toks).getD "bad-op")
     else if tok.startsWith "did." || tok.startsWith "mon.c11." then
       match didStep st.addrs st.sigs st.did toks with
